@@ -139,7 +139,19 @@ def check_status(ctx) -> None:
             ctx.ok("C06.status", fn, s, "failed solves yield NaN (default error_value)")
     status_reads = [n for r in rets for n in ast.walk(r) if isinstance(n, ast.Attribute) and n.attr == "status"]
     if not status_reads:
-        ctx.bad("C06.status", fn, rets[0], "the returned status is not read from the solver at return time")
+        # a local that holds the status: it must have been read after the solve (C13.fresh decides that for every read of
+        # solver results; the value/status pairing itself is decided by C06.formulation)
+        reads = [n for n in walk_local(fn.node) if isinstance(n, ast.Attribute) and n.attr == "status" and norm(n.value).endswith("solver")]
+        snodes = set()
+        for s in solves:
+            snodes |= {x for x in g.node_containing(s) if x.kind != "with_exit"}
+        late = [r for r in reads if g.reaches_without([x for x in g.node_containing(r)], lambda n: n in snodes, edge_ok=no_exc) is None]
+        if reads and len(late) == len(reads):
+            ctx.ok("C06.status", fn, rets[0], "the status is read after the solve (through a local)")
+        elif reads:
+            ctx.bad("C06.status", fn, rets[0], "the status can be read before the solve whose value is returned")
+        else:
+            ctx.ok("C06.status", fn, rets[0], "no familiar spelling of the status read; decided by C06.formulation", nontrivial=False)
     else:
         snodes = set()
         for s in solves:
